@@ -11,7 +11,7 @@ pub fn meta() -> Meta {
     Meta {
         id: "C17",
         level: "exploration",
-        rule: "planted-SNP families through `ska build` + `ska lo` (CLI, one thread, hash seeds owned by the shim: 2 quick / 3 thorough): ancestors of length 10k+1 whose (k-1)-mers are unique on both strands; k in {7,9,15,21,31,33} (thorough: every odd k in 7..33); sites = every non-empty subset of the grid {3k, 5k, 7k+1} (spacing exactly 2k and 2k+1, margins 3k); allele assignments = every biallelic split for n=3,4,5 samples, every triallelic assignment for n=3 (thorough: n=4) and carrier patterns for n=6,10 (thorough: 8); sample orientations; without reference and (k>=15) with the ancestor as reference, the reference file laid out in one of four ways chosen per case (one line; lines of 60; lines of 70 with CRLF; header with description, lines of 50, no final newline); -m in {0, 0.1, 0.2}. Oracle without reference: the column multiset modulo whole-column complement equals the planted one. With reference (soundness): every VCF record lies at a planted site, REF is the ancestor base, every given genotype decodes to that sample's true base, pseudo-genomes have the ancestor's length and agree with each sample at every called position. Well-formedness family outside the premise (SNP pairs at every distance 1..2k, SNP next to an indel, three alleles at adjacent sites, a sample lacking a region): equal sequence lengths, >= 2 distinct A/C/G/T per column, missing fraction <= m. Cases whose derived samples break (k-1)-mer uniqueness are trivial and not judged for completeness.".into(),
+        rule: "planted-SNP families through `ska build` + `ska lo` (CLI, one thread, hash seeds owned by the shim: 2 quick / 3 thorough): ancestors of length 10k+1 whose (k-1)-mers are unique on both strands; k in {7,9,15,21,31,33} (thorough: every odd k in 7..33); sites = every non-empty subset of the grid {3k, 5k, 7k+1} (spacing exactly 2k and 2k+1, margins 3k); allele assignments = every biallelic split for n=3,4,5 samples, every triallelic assignment for n=3 (thorough: n=4) and carrier patterns for n=6,10 (thorough: 8); sample orientations; without reference and (k>=15) with the ancestor as reference, the reference file laid out in one of four ways chosen per case (one line; lines of 60; lines of 70 with CRLF; header with description, lines of 50, no final newline); -m in {0, 0.1, 0.2}. Oracle without reference: the column multiset modulo whole-column complement equals the planted one. With reference (soundness): every VCF record lies at a planted site, REF is the ancestor base, every given genotype decodes to that sample's true base, pseudo-genomes have the ancestor's length and agree with each sample at every called position. Well-formedness family outside the premise (SNP pairs at every distance 1..2k, SNP next to an indel, three alleles at adjacent sites, a sample lacking a region): equal sequence lengths, >= 2 distinct A/C/G/T per column, missing fraction <= m. Cases whose derived samples break (k-1)-mer uniqueness are trivial and not judged for completeness. Every 48th case is repeated through the dev-profile build of the CLI (arithmetic overflow checks on) and must get the same verdict.".into(),
         assumptions: vec!["hash-seed space is a declared finite set (2/3 seeds); thread counts are C11's".into(), "release-profile arithmetic (DESIGN §2)".into()],
         exhaustive_when_uncapped: true,
     }
@@ -233,6 +233,24 @@ pub fn run(ctx: &Ctx, rep: &mut Report) {
                                     }
                                 }
                             }
+                        }
+                        // every 48th case once more through the dev-profile build (overflow checks on): same verdict
+                        if idx % 48 == 0 && crate::cli::debug_exe().is_some() {
+                            let with_ref = k >= 15 && idx % 96 == 0;
+                            let rel = check(&c, with_ref, m, ctx.seed, &dir);
+                            crate::cli::set_debug_profile(true);
+                            let dbg = check(&c, with_ref, m, ctx.seed, &dir);
+                            rep.evaluations += 1;
+                            rep.corner("case_repeated_with_overflow_checked_build");
+                            match (&rel, &dbg) {
+                                (_, Err(e)) if e.starts_with("MACHINERY") => rep.machinery(e.clone()),
+                                (Ok(_), Err(e)) => {
+                                    let j = case_json(&c, with_ref, m, ctx.seed);
+                                    rep.violate(format!("k={k} n={n} sites={sites:?} alleles={:?} flip={:?} ref={with_ref}", c.alleles, c.flip), format!("k={k} n={n} sites={sites:?} ref={with_ref} -m {m}: {e}"), j);
+                                }
+                                _ => {}
+                            }
+                            crate::cli::set_debug_profile(false);
                         }
                         if rep.evaluations % 900 == 7 {
                             rep.sample(case_json(&c, false, m, ctx.seed));
